@@ -13,9 +13,17 @@ def main():
     with open(specpath) as f:
         spec = json.load(f)
     mon = core.Monitor(pid, getattr(prop, "classify", None))
-    prop.run(spec, mon)
+    from . import reach as reach_mod
+    reach = reach_mod.Reach(pid)
+    reach.start()
+    try:
+        prop.run(spec, mon)
+    finally:
+        reach.stop()
+    out = mon.dump()
+    out["reach"] = reach.dump()
     with open(outpath + ".tmp", "w") as f:
-        json.dump(mon.dump(), f, default=core.jdefault)
+        json.dump(out, f, default=core.jdefault)
     import os
     os.replace(outpath + ".tmp", outpath)
 
